@@ -130,6 +130,7 @@ void HttpServer::serve(Socket client)
 				if (response.hasHeader("Content-Range") && response.header("Content-Range").contains('*'))
 				{
 					response.setCode(416);
+					response.put(""); // no body: write() must not send the file (and overwrite Content-Range) again
 					response.write();
 				}
 			}
